@@ -14,12 +14,13 @@ import re
 import subprocess
 
 from . import pyfunc, pyobj, pybytes
-from .pyfunc import NAT, INT, BYTES, BOOL, BITS, OBJ, LISTOF
+from .pyfunc import NAT, INT, BYTES, BOOL, BITS, OBJ, LISTOF, OPT
 from .pyexpr import Untranslatable
 from .arith import write_if_changed, _lake_build
 from ..paths import REPO, LEAN
 
 SRC = 'pytoniq_core/proof/check_proof.py'
+TL_BLOCK = 'pytoniq_core/tl/block.py'
 EXOTIC = 'pytoniq_core/boc/exotic.py'
 CELL_SRC = 'pytoniq_core/boc/cell.py'
 OUT = 'TonVerif/Generated/ProofFull.lean'
@@ -48,8 +49,24 @@ CLASSES = {
     'ShardAccountsDict': dict(kind='struct', lean='Shard', attrs={},
                               lookup=dict(lean='accountsGet {} {}', key=NAT, ret=OBJ('ShardAccount'), ext=['accountsGet'])),
     'ShardAccount': dict(kind='struct', lean='ShardAccount', attrs={'cell': ('accountCell {}', OBJ('Cell'), 'accountCell')}),
+    # ---- check_shard_proof
+    # a BlockIdExt = Model.BlkId (five attributes); `a == b` = equality of the structure (checked: BlockIdExt.__eq__ compares exactly
+    # these five attributes, `blockid_eq_fields`)
+    'BlockId': dict(kind='struct', lean='BlkId', eq='({} = {})',
+                    attrs={'workchain': ('{}.workchain', INT), 'seqno': ('{}.seqno', INT), 'root_hash': ('{}.rootHash', BYTES)}),
+    # Block.deserialize(slice) and what is read of it: `.info` (the BlockInfo; the same Lean value), `.seqno`, `.shard.workchain_id`
+    'Block': dict(kind='struct', lean='BlockInfo', attrs={'info': ('{}', OBJ('BlockInfo'))}),
+    'BlockInfo': dict(kind='struct', lean='BlockInfo', attrs={'seqno': ('infoSeqno {}', INT, 'infoSeqno'),
+                                                              'shard.workchain_id': ('infoWorkchain {}', INT, 'infoWorkchain')}),
+    # the masterchain state: `shard.custom.shard_hashes` raises when `custom` is None; the dictionary is read by `.get(workchain)`
+    # (None = absent); a BinTree result `.list` = its leaves, None for a pruned leaf; a ShardDescr leaf is read through `.root_hash`
+    'McShard': dict(kind='struct', lean='Shard', attrs={}, raising_attrs={'custom.shard_hashes': ('shardHashes {}', OBJ('ShardDict'), 'shardHashes')}),
+    'ShardDict': dict(kind='struct', lean='ShardDict', attrs={},
+                      methods={'get': dict(lean='shardGet {} {}', args=[INT], ret=OPT(OBJ('ShardDescr')), raises=False, ext=['shardGet'])}),
+    'ShardDescr': dict(kind='struct', lean='ShardDescr', attrs={'list': ('descrList {}', 'optlist:ShardEntry', 'descrList')}),
+    'ShardEntry': dict(kind='struct', lean='ShardEntry', attrs={'root_hash': ('entryRootHash {}', BYTES, 'entryRootHash')}),
 }
-TYPE_PARAMS = ['Shard', 'ShardAccount']
+TYPE_PARAMS = ['Shard', 'ShardAccount', 'BlockInfo', 'ShardDict', 'ShardDescr', 'ShardEntry']
 # calls that stay PARAMETERS of the regenerated definitions (their models: BoC decoding = C03/C05; the TL-B walk = Model/Locate.lean)
 EXTERNS = {
     'Cell.from_boc': dict(lean='from_boc', params=['data'], args=[BYTES], ret=LISTOF('Cell'), raises=True,
@@ -58,8 +75,17 @@ EXTERNS = {
                                           binder='(deserShard : PCell → Option Shard)', tparams=['Shard']),
     'accountsGet': dict(lean='accountsGet', params=None, binder='(accountsGet : Shard → Nat → Option ShardAccount)', tparams=['Shard', 'ShardAccount']),
     'accountCell': dict(lean='accountCell', params=None, binder='(accountCell : ShardAccount → PCell)', tparams=['ShardAccount']),
+    # ---- check_shard_proof
+    'Block.deserialize': dict(lean='deserBlock', params=['cell_slice'], args=[OBJ('FreshSlice')], ret=OBJ('Block'), raises=True,
+                              binder='(deserBlock : PCell → Option BlockInfo)', tparams=['BlockInfo']),
+    'infoSeqno': dict(lean='infoSeqno', params=None, binder='(infoSeqno : BlockInfo → Int)', tparams=['BlockInfo']),
+    'infoWorkchain': dict(lean='infoWorkchain', params=None, binder='(infoWorkchain : BlockInfo → Int)', tparams=['BlockInfo']),
+    'shardHashes': dict(lean='shardHashes', params=None, binder='(shardHashes : Shard → Option ShardDict)', tparams=['Shard', 'ShardDict']),
+    'shardGet': dict(lean='shardGet', params=None, binder='(shardGet : ShardDict → Int → Option ShardDescr)', tparams=['ShardDict', 'ShardDescr']),
+    'descrList': dict(lean='descrList', params=None, binder='(descrList : ShardDescr → List (Option ShardEntry))', tparams=['ShardDescr', 'ShardEntry']),
+    'entryRootHash': dict(lean='entryRootHash', params=None, binder='(entryRootHash : ShardEntry → Bytes)', tparams=['ShardEntry']),
 }
-EXTERN_IMPORTS = {'Cell': ('boc.cell', 2), 'ShardStateUnsplit': ('tlb.block', 2), 'CellTypes': ('boc.exotic', 2)}
+EXTERN_IMPORTS = {'Cell': ('boc.cell', 2), 'ShardStateUnsplit': ('tlb.block', 2), 'CellTypes': ('boc.exotic', 2), 'Block': ('tlb.block', 2)}
 CONST_PARAMS = {'check_block_header_proof': {'store_state_hash': True}, 'check_account_proof': {'return_account_descr': True}}
 ENTRIES = [
     ('check_proof', [OBJ('Cell'), BYTES], {}),
@@ -67,13 +93,22 @@ ENTRIES = [
     ('check_block_header_proof', [OBJ('Cell'), BYTES], {'store_state_hash': True}),
     ('check_account_proof', [BYTES, OBJ('BlkRoot'), OBJ('AddrHash'), OBJ('Cell')], {'return_account_descr': False}),
 ]
+# translated after the core entries and allowed to fail on their own (then only THEIR committed blocks are kept, tie `lost`)
+EXT_ENTRIES = [
+    ('check_account_proof', [BYTES, OBJ('BlkRoot'), OBJ('AddrHash'), OBJ('Cell')], {'return_account_descr': True}),
+    ('check_shard_proof', [BYTES, OBJ('BlockId'), OBJ('BlockId')], {}),
+]
+EXT_NAMES = ['check_account_proof_True', 'check_shard_proof']
 
-HEAD = ['/- GENERATED by harness/translate/prooffull.py (pyfunc.py) from the current source of', f'   {SRC} (check_proof, check_block_header_proof, check_account_proof), {EXOTIC} (CellTypes); do not edit.',
+HEAD = ['/- GENERATED by harness/translate/prooffull.py (pyfunc.py) from the current source of', f'   {SRC} (check_proof, check_block_header_proof, check_account_proof, check_shard_proof), {EXOTIC} (CellTypes); do not edit.',
         '   `none` = the Python code raises.  A constructed Cell is a `Model.PCell`; `cell[i]` = `cell.refs[i]?`, `get_hash` / `get_depth` =',
         '   `CellInfo.getHash` / `getDepth`.  `from_boc` (Cell.from_boc), `deserShard` (ShardStateUnsplit.deserialize), `accountsGet`',
         '   (`shard.accounts[0][key]`), `accountCell` (`shard_account.cell`) are parameters.  `_True` / `_False` = the function specialised to that',
-        '   value of its flag parameter. -/',
-        'import TonVerif.PyInt', 'import TonVerif.PyBytes', 'import TonVerif.PyObj', 'import TonVerif.Model.PCell',
+        '   value of its flag parameter.  check_shard_proof: a BlockIdExt is a `Model.BlkId`; `deserBlock` (Block.deserialize(..).info), `infoSeqno`,',
+        '   `infoWorkchain`, `shardHashes` (`shard.custom.shard_hashes`, none = raises), `shardGet` (`.get(workchain)`), `descrList` (`.list`, an',
+        '   element may be None), `entryRootHash` are parameters; its result is `some none` for the early `return`, `some (some descr)` for the',
+        '   descriptor returned from inside the loop (`Py.loop?` = a fold that stops at the first `return`). -/',
+        'import TonVerif.PyInt', 'import TonVerif.PyBytes', 'import TonVerif.PyObj', 'import TonVerif.Model.PCell', 'import TonVerif.Model.BlockId',
         'set_option linter.unusedVariables false', f'namespace {NS}', 'open TonVerif TonVerif.Model', '']
 
 
@@ -113,6 +148,35 @@ def celltypes_values(ex_tree):
     return values
 
 
+def blockid_eq_fields(tl_tree):
+    """the attributes compared by BlockIdExt.__eq__ (`if a.x != b.x or ...: return False; return True`, or `return a.x == b.x and ...`)"""
+    cls = _class(tl_tree, 'BlockIdExt', TL_BLOCK)
+    fs = [n for n in cls.body if isinstance(n, ast.FunctionDef) and n.name == '__eq__']
+    if len(fs) != 1 or fs[0].decorator_list or len(fs[0].args.args) != 2 or fs[0].args.args[0].arg != 'self':
+        raise Untranslatable('BlockIdExt.__eq__ not found')
+    other = fs[0].args.args[1].arg
+    body = [s for s in fs[0].body if not (isinstance(s, ast.Expr) and isinstance(s.value, ast.Constant))]
+
+    def fields(test, op, conn):
+        parts = test.values if isinstance(test, ast.BoolOp) and isinstance(test.op, conn) else [test]
+        out = []
+        for c in parts:
+            if not (isinstance(c, ast.Compare) and len(c.ops) == 1 and isinstance(c.ops[0], op)):
+                raise Untranslatable('BlockIdExt.__eq__: comparison shape')
+            sides = sorted(ast.unparse(x) for x in (c.left, c.comparators[0]))
+            a = [x for x in sides if x.startswith('self.')]
+            if len(a) != 1 or sorted([a[0], f'{other}.{a[0][5:]}']) != sides:
+                raise Untranslatable('BlockIdExt.__eq__: compares something else than self.x with other.x')
+            out.append(a[0][5:])
+        return out
+    if (len(body) == 2 and isinstance(body[0], ast.If) and not body[0].orelse and [ast.unparse(x) for x in body[0].body] == ['return False']
+            and ast.unparse(body[1]) == 'return True'):
+        return sorted(fields(body[0].test, ast.NotEq, ast.Or))
+    if len(body) == 1 and isinstance(body[0], ast.Return) and body[0].value is not None:
+        return sorted(fields(body[0].value, ast.Eq, ast.And))
+    raise Untranslatable('BlockIdExt.__eq__: shape')
+
+
 def program():
     tree, ex_tree, cell_tree = _tree(SRC), _tree(EXOTIC), _tree(CELL_SRC)
     fns = pyfunc.module_functions(tree)
@@ -144,11 +208,36 @@ def program():
                            hashlib='hashlib', bitarray='bitarray', src=SRC)
 
 
+def check_shard_interface(prog):
+    """source checks behind the declared reading of check_shard_proof's objects"""
+    if blockid_eq_fields(_tree(TL_BLOCK)) != ['file_hash', 'root_hash', 'seqno', 'shard', 'workchain']:
+        raise Untranslatable('BlockIdExt.__eq__ does not compare exactly workchain, shard, seqno, root_hash, file_hash')
+    # in check_shard_proof the deserialised state is a masterchain state: `shard` is read through `.custom.shard_hashes`
+    classes = dict(prog.classes)
+    classes['Shard'] = classes['McShard']
+    return classes
+
+
 def translate_all():
+    """-> (defs of the core entries, defs of the extension entries | None, reason the extension failed | None)"""
     prog = program()
     for name, argtypes, consts in ENTRIES:
         prog.function(name, argtypes, consts)
-    return dict(prog.defs)
+    core = dict(prog.defs)
+    try:
+        prog.function(*EXT_ENTRIES[0])
+        core_classes = prog.classes
+        prog.classes = check_shard_interface(prog)
+        try:
+            prog.function(*EXT_ENTRIES[1])
+        finally:
+            prog.classes = core_classes
+        ext = {n: t for n, t in prog.defs if n not in core}
+        if sorted(ext) != sorted(EXT_NAMES):
+            raise Untranslatable(f'extension definitions {sorted(ext)}')
+        return core, ext, None
+    except (Untranslatable, SyntaxError, OSError, RecursionError) as e:
+        return core, None, f'{type(e).__name__}: {e}'
 
 
 def committed_text():
@@ -161,19 +250,32 @@ def committed_text():
     return None
 
 
+def block_of(text, name):
+    m = re.search(rf'^-- BEGIN {re.escape(name)}\n(.*?)^-- END {re.escape(name)}\n', text or '', re.M | re.S)
+    return m.group(1) if m else None
+
+
 def generate(old=None):
     try:
-        defs = translate_all()
+        defs, ext, ext_lost = translate_all()
     except (Untranslatable, SyntaxError, OSError, RecursionError) as e:
         keep = committed_text() or old
         if keep is None:
             raise Untranslatable(f'{e} (and no previous translation to keep)')
         return keep, {}, {'ProofFull': f'{type(e).__name__}: {e}'}
+    lost = {}
+    if ext is None:
+        # check_shard_proof / the descriptor mode left the subset: their committed blocks are kept, the core is regenerated
+        keep = committed_text() or old
+        ext = {n: block_of(keep, n) for n in EXT_NAMES}
+        if any(v is None for v in ext.values()):
+            raise Untranslatable(f'{ext_lost} (and no previous translation of {EXT_NAMES} to keep)')
+        lost = {'ProofFull(check_shard_proof, check_account_proof descriptor mode)': ext_lost}
     out = list(HEAD)
-    for name, text in defs.items():
+    for name, text in list(defs.items()) + [(n, ext[n]) for n in EXT_NAMES]:
         out += [f'-- BEGIN {name}', text.rstrip('\n'), f'-- END {name}', '']
     out.append(f'end {NS}')
-    return '\n'.join(out) + '\n', {n: 'regenerated' for n in defs}, {}
+    return '\n'.join(out) + '\n', {n: 'regenerated' for n in list(defs) + ([] if lost else EXT_NAMES)}, lost
 
 
 def regenerate():
@@ -185,7 +287,7 @@ def regenerate():
     text, info, lost = generate(old=old)
     changed = write_if_changed(path, text)
     h = hashlib.sha256(text.encode())
-    for f in (SRC, EXOTIC, CELL_SRC):
+    for f in (SRC, EXOTIC, CELL_SRC, TL_BLOCK):
         h.update(open(os.path.join(REPO, f), 'rb').read())
     for f in (__file__, pyfunc.__file__, pyobj.__file__, pybytes.__file__, pybytes.pyarith.__file__, os.path.join(LEAN, 'TonVerif/PyObj.lean'),
               os.path.join(LEAN, 'TonVerif/Model/Proof.lean')):
@@ -212,7 +314,7 @@ def regenerate():
                 pass
     if lost:
         raise Untranslatable(f'kept the previous translation: {lost} (file changed: {changed})')
-    return changed, {'definitions': sorted(info), 'validated': 'cached' if cached else f'Lean evaluation = the library on {n} proof / header / account cases'}
+    return changed, {'definitions': sorted(info), 'validated': 'cached' if cached else f'Lean evaluation = the library on {n} proof / header / account (both modes) / shard-proof cases'}
 
 
 # ---------------------------------------------------------------------------- Lean evaluation
@@ -236,6 +338,35 @@ def hdrMod (c : PCell) (hb : Bytes) : String :=
 def acctGen (O : Opaque) (rcs : List PCell) (bh kb : Bytes) (sc : PCell) : Bool :=
   (check_account_proof_False (Shard := PCell) (ShardAccount := PCell) (fun _ => some rcs) some (fun st _ => locateAccount O st kb)
     (fun acc => PCell.mk acc.info [acc]) [] bh kb sc).isSome
+def acctGenD (O : Opaque) (rcs : List PCell) (bh kb : Bytes) (sc : PCell) : Bool :=
+  (check_account_proof_True (Shard := PCell) (ShardAccount := PCell) (fun _ => some rcs) some (fun st _ => locateAccount O st kb)
+    (fun acc => PCell.mk acc.info [acc]) [] bh kb sc).isSome
+def showShard : Option (Option Unit) → String
+  | none => "rej"
+  | some none => "none"
+  | some (some _) => "descr"
+/- check_shard_proof with stub externals described by small numbers (the library runs the real function with the same stubs):
+   same / mc: blk == shrd_blk, blk.workchain == -1; info: 0 ok, 1 seqno differs, 2 Block.deserialize raises, 3 workchain differs;
+   custom: 1 = `shard.custom` is None (raises); get: 1 = the workchain is absent; leaves: 0 = None, 1 = the shard block's root hash, 2 = another -/
+def shardBlk (bh : Bytes) (mc : Nat) : BlkId := ⟨if mc == 1 then -1 else 0, 0, 5, bh, []⟩
+def shardShrd (bh : Bytes) (same mc : Nat) : BlkId := if same == 1 then shardBlk bh mc else ⟨0, 1, 9, List.replicate 32 8, []⟩
+def shardLeaves (leaves : List Nat) : List (Option Bytes) :=
+  leaves.map fun k => if k == 0 then none else if k == 1 then some (List.replicate 32 8) else some (List.replicate 32 9)
+def shardGen (rcs : List PCell) (bh : Bytes) (same mc info custom get : Nat) (leaves : List Nat) : String :=
+  showShard (check_shard_proof (Shard := Unit) (BlockInfo := Unit) (ShardDict := Unit) (ShardDescr := Unit) (ShardEntry := Bytes)
+    (fun _ => some rcs) (fun _ => some ()) (fun _ => if info == 2 then none else some ()) (fun _ => if info == 1 then 6 else 5)
+    (fun _ => (shardBlk bh mc).workchain + (if info == 3 then 1 else 0)) (fun _ => if custom == 1 then none else some ())
+    (fun _ _ => if get == 1 then none else some ()) (fun _ => shardLeaves leaves) id [] (shardBlk bh mc) (shardShrd bh same mc))
+def shardMod (rcs : List PCell) (bh : Bytes) (same mc info custom get : Nat) (leaves : List Nat) : String :=
+  let blk := shardBlk bh mc
+  let shrd := shardShrd bh same mc
+  let find := findShardDescr (Shard := Unit) (ShardDict := Unit) (ShardDescr := Unit) (ShardEntry := Bytes) (fun _ => some ())
+    (fun _ => if custom == 1 then none else some ()) (fun _ _ => if get == 1 then none else some ()) (fun _ => shardLeaves leaves) id
+    shrd.workchain shrd.rootHash
+  showShard (if blk = shrd then some none else if blk.workchain ≠ -1 then none else
+    if checkShardProof (shardBlockInfoOk (BlockInfo := Unit) (fun _ => if info == 2 then none else some ()) (fun _ => if info == 1 then 6 else 5)
+        (fun _ => blk.workchain + (if info == 3 then 1 else 0)) blk.seqno blk.workchain) (fun st => (find st).isSome) false true rcs bh
+    then ((rcs[1]?).bind fun s => (s.refs[0]?).bind fun st => find st).map some else none)
 def out (mode : String) (g m : String) : String := if mode == "val" then g else (if g == m then "same" else "DIFF")
 def run (mode : String) (w : String) : String :=
   match w.splitOn " " with
@@ -260,6 +391,20 @@ def run (mode : String) (w : String) : String :=
       | some rcs, some sc => out mode (accRej (acctGen (opaqueOf ba bm) rcs bhb kb sc)) (accRej (checkAccountProof (opaqueOf ba bm) rcs bhb kb sc))
       | _, _ => out mode "rej" "rej"
     | _, _, _, _, _, _, _ => "bad"
+  | ["chkacctd", d, roots, bh, key, st, badAcc, badMc] =>
+    match parsePDag d, parseNatList roots, hexArg bh, hexArg key, st.toNat?, parseHexList badAcc, parseHexList badMc with
+    | some cells, some rs, some bhb, some kb, some si, some ba, some bm =>
+      match rs.mapM (cellAt cells), cellAt cells si with
+      | some rcs, some sc => out mode (accRej (acctGenD (opaqueOf ba bm) rcs bhb kb sc)) (accRej (checkAccountProof (opaqueOf ba bm) rcs bhb kb sc))
+      | _, _ => out mode "rej" "rej"
+    | _, _, _, _, _, _, _ => "bad"
+  | ["chkshard", d, roots, bh, same, mc, info, custom, get, leaves] =>
+    match parsePDag d, parseNatList roots, hexArg bh, same.toNat?, mc.toNat?, info.toNat?, custom.toNat?, get.toNat?, parseNatList leaves with
+    | some cells, some rs, some bhb, some a, some b, some c, some e, some f, some ls =>
+      match rs.mapM (cellAt cells) with
+      | some rcs => out mode (shardGen rcs bhb a b c e f ls) (shardMod rcs bhb a b c e f ls)
+      | none => out mode "rej" "rej"
+    | _, _, _, _, _, _, _, _, _ => "bad"
   | _ => "bad"
 """
 
@@ -296,6 +441,7 @@ class Recorder:
         self.search, self.thorough, self.tier = False, False, 'quick'
         self.scale = scale
         self.src_account_first = False
+        self.acct_cases = []
 
     def n(self, quick, thorough):
         return max(1, quick // self.scale)
@@ -316,6 +462,11 @@ class Recorder:
         if line.split(' ', 1)[0] in ('chkproof', 'chkhdr', 'chkacct'):
             self.lines.append((line, expected, detail))
 
+    def record_acct(self, line, got_descr, detail, nodes, roots, blk_hash):
+        # the same request in the descriptor mode (return_account_descr=True), with the library's verdict for THAT mode
+        self.lines.append((line.replace('chkacct', 'chkacctd', 1), got_descr, detail + '/descr'))
+        self.acct_cases.append((list(nodes), list(roots), blk_hash, detail))
+
 
 def validation_cases():
     """(request line, library verdict) pairs from the C11 generators with a fixed seed: Merkle proofs over chains (honest, cut /
@@ -330,6 +481,78 @@ def validation_cases():
         if line not in seen and len(line) < 60000:
             seen.add(line)
             out.append((line, exp, detail))
+    for line, exp, detail in shard_cases(rec.acct_cases):
+        if line not in seen and len(line) < 60000:
+            seen.add(line)
+            out.append((line, exp, detail))
+    return out
+
+
+SHARD_GRID = [  # (same, mc, info, custom, get, leaves)
+    (0, 1, 0, 0, 0, [1]), (0, 1, 0, 0, 0, [0, 2, 1, 2]), (0, 1, 0, 0, 0, [2, 2]), (0, 1, 0, 0, 0, []), (0, 1, 0, 0, 0, [0]), (0, 1, 0, 0, 0, [0, 0, 1]),
+    (1, 1, 0, 0, 0, [1]), (1, 0, 2, 1, 1, []), (0, 0, 0, 0, 0, [1]), (0, 1, 1, 0, 0, [1]), (0, 1, 2, 0, 0, [1]), (0, 1, 3, 0, 0, [1]),
+    (0, 1, 0, 1, 0, [1]), (0, 1, 0, 0, 1, [1]), (0, 1, 0, 0, 0, [2, 1, 1]),
+]
+
+
+def shard_lib_answer(nodes, roots, bh, same, mc, info, custom, get, leaves):
+    """the REAL check_shard_proof of the library run on constructed cells, with the TL-B deserialisers and Cell.from_boc replaced by
+    stubs that behave as the numbers say (what the translator declares as externals) -> 'none' | 'descr' | 'rej'"""
+    import types
+    import importlib
+    import sys
+    importlib.import_module('pytoniq_core.proof.check_proof')
+    cp = sys.modules['pytoniq_core.proof.check_proof']         # (the package re-exports a FUNCTION of the same name)
+    from pytoniq_core.tl.block import BlockIdExt
+    from ..gen import cells as G
+    libs = G.lib_build(nodes)
+    if any(libs[r] is None for r in roots):
+        return 'rej'
+    cells = [libs[r] for r in roots]
+    NS = types.SimpleNamespace
+    blk = BlockIdExt(-1 if mc else 0, 0, 5, bh, b'')
+    shrd = BlockIdExt(-1 if mc else 0, 0, 5, bytes(bh), b'') if same else BlockIdExt(0, 1, 9, bytes([8]) * 32, b'')
+
+    def deser_block(_slice):
+        if info == 2:
+            raise ValueError('stub: Block.deserialize raises')
+        return NS(info=NS(seqno=6 if info == 1 else 5, shard=NS(workchain_id=blk.workchain + (1 if info == 3 else 0))))
+
+    descr = NS(list=[None if k == 0 else NS(root_hash=bytes([8 if k == 1 else 9]) * 32) for k in leaves])
+
+    def deser_shard(_slice):
+        return NS(custom=None if custom == 1 else NS(shard_hashes={} if get == 1 else {shrd.workchain: descr}))
+
+    saved = (cp.Cell, cp.Block, cp.ShardStateUnsplit)
+    try:
+        cp.Cell = NS(from_boc=lambda data: list(cells))
+        cp.Block = NS(deserialize=deser_block)
+        cp.ShardStateUnsplit = NS(deserialize=deser_shard)
+        try:
+            r = cp.check_shard_proof(b'', blk, shrd)
+        except Exception:
+            return 'rej'
+        return 'none' if r is None else ('descr' if r is descr else f'other {r!r}')
+    finally:
+        cp.Cell, cp.Block, cp.ShardStateUnsplit = saved
+
+
+def shard_cases(acct_cases, limit=28):
+    """request lines `chkshard` over the proof pairs of the recorded account cases (honest, forged, wrong roots) x SHARD_GRID"""
+    from ..props import C11
+    out = []
+    picked, kinds = [], set()
+    for nodes, roots, bh, detail in acct_cases:        # one case per kind first, then fill up
+        if detail not in kinds:
+            kinds.add(detail)
+            picked.append((nodes, roots, bh, detail))
+    picked = picked[:limit]
+    for i, (nodes, roots, bh, detail) in enumerate(picked):
+        grid = SHARD_GRID if i < 6 else SHARD_GRID[:3] + [SHARD_GRID[6 + i % 9]]
+        for same, mc, info, custom, get, leaves in grid:
+            line = (f'chkshard {C11.dag_str(nodes)} {".".join(map(str, roots))} {C11.hx(bh)} {same} {mc} {info} {custom} {get} '
+                    f'{".".join(map(str, leaves)) or "-"}')
+            out.append((line, shard_lib_answer(nodes, roots, bh, same, mc, info, custom, get, leaves), f'shard/{detail}'))
     return out
 
 
@@ -358,7 +581,7 @@ def diff_lines(ctx, lines):
         ctx.notes.append(f'source-diff search (ProofFull) failed: {type(e).__name__}: {e}')
         return []
     idx = [i for i, g in enumerate(got) if g == 'DIFF']
-    ctx.notes.append(f'source-diff search: regenerated check_proof / check_block_header_proof / check_account_proof vs hand model on {len(lines)} requests: '
+    ctx.notes.append(f'source-diff search: regenerated check_proof / check_block_header_proof / check_account_proof / check_shard_proof vs hand model on {len(lines)} requests: '
                      + (f'{len(idx)} differ, e.g. {lines[idx[0]][:100]}' if idx else 'no difference'))
     return idx
 
